@@ -24,8 +24,9 @@ import (
 //     sentph/num-outstanding    numOutstanding != number of tracked Outstanding() packets
 //     sentph/ack-unsent         ACK with largest > largest sent accepted, or it changed state
 //     sentph/ack-skipped        ACK covering one of the most recent skipped numbers accepted
-//     sentph/ack-old-skipped    ACK covering an older skipped number accepted (replay of the Coq witness
-//     C06_ack_any_skipped_refuted; also checked on every generated history)
+//     sentph/ack-old-skipped    ACK covering an older skipped number that is not below the lowest tracked packet
+//     accepted (the repaired finding; the former Coq witness is replayed first in every run)
+//     sentph/ack-below-initial-pn  Initial ACK covering a number below the first Initial packet number accepted
 //     sentph/ack-valid-rejected an ACK that covers neither unsent nor skipped numbers was rejected as PROTOCOL_VIOLATION
 //     sentph/timer-not-armed    crypto / confirmed app data outstanding, not amplification limited, alarm unset
 //     sentph/panic              the handler panicked
@@ -101,6 +102,10 @@ type sphRun struct {
 	skipped        []int64 // application-data numbers the harness saw skipped, in order
 	appHi          int64
 	sentSinceReset bool
+	ipn            int64
+	lowTracked     int64
+	lowTrackedOK   bool
+	belowWindow    int
 	failed         map[string]bool
 	nextID         int64
 	kinds          map[string]int
@@ -127,6 +132,7 @@ func newSphRun(w *bufio.Writer, client, validated bool, ipn, period, maxPeriod i
 	}
 	r.v = ackhandler.VerifSentPHNew(client, validated, ipn, period, maxPeriod)
 	r.appHi = r.v.AppHighest()
+	r.ipn = ipn
 	r.hdr = fmt.Sprintf("%s %s %s %s %s %s", u.B(client), u.B(validated), u.Z(ipn), u.Z(period), u.Z(maxPeriod), u.Z(r.v.Rnd0))
 	return r
 }
@@ -210,6 +216,7 @@ func (r *sphRun) exec(o *sphOp) (ret int64) {
 	var largestSentBefore int64
 	if o.kind == "ack" {
 		largestSentBefore = r.v.LargestSent(o.l)
+		r.lowTracked, r.lowTrackedOK = r.v.AppLowestTracked()
 	}
 	defer func() {
 		if e := recover(); e != nil {
@@ -347,6 +354,17 @@ func (r *sphRun) monitors(o *sphOp, ret int64, before trackedSummary, bifBefore,
 		if pv {
 			r.pvErrors++
 		}
+		lowest := o.ranges[len(o.ranges)-1][0]
+		belowInitial := o.l == lvInitial && lowest < r.ipn
+		if belowInitial && largest <= largestSentBefore {
+			// Initial packet numbers start at initialPN: anything below was never sent
+			if !pv {
+				r.monfail("sentph/ack-below-initial-pn", fmt.Sprintf("Initial ACK with lowest %d below the first Initial packet number %d returned code %d", lowest, r.ipn, ret))
+			}
+			if len(cbs) > 0 || ob.Bif != bifBefore {
+				r.monfail("sentph/ack-below-initial-pn", "rejected ACK for a never sent Initial packet number changed the state")
+			}
+		}
 		if largest > largestSentBefore {
 			if !pv {
 				r.monfail("sentph/ack-unsent", fmt.Sprintf("ACK with largest %d > largest sent %d returned code %d", largest, largestSentBefore, ret))
@@ -364,15 +382,22 @@ func (r *sphRun) monitors(o *sphOp, ret int64, before trackedSummary, bifBefore,
 				}
 				return false
 			}
-			recent, old := int64(-1), int64(-1)
+			// the 4 most recent skipped numbers are always remembered; older ones as long as they are not
+			// below the lowest packet number still tracked (below it an ACK cannot acknowledge anything)
+			recent, old, below := int64(-1), int64(-1), int64(-1)
 			for i, pn := range r.skipped {
 				if covers(pn) {
 					if i >= len(r.skipped)-4 {
 						recent = pn
-					} else {
+					} else if r.lowTrackedOK && pn >= r.lowTracked {
 						old = pn
+					} else {
+						below = pn
 					}
 				}
+			}
+			if recent < 0 && old < 0 && below >= 0 && !pv {
+				r.belowWindow++
 			}
 			if recent >= 0 && !pv {
 				r.monfail("sentph/ack-skipped", fmt.Sprintf("ACK covering the skipped packet number %d accepted (code %d)", recent, ret))
@@ -380,7 +405,7 @@ func (r *sphRun) monitors(o *sphOp, ret int64, before trackedSummary, bifBefore,
 			if recent < 0 && old >= 0 && !pv {
 				r.monfail("sentph/ack-old-skipped", fmt.Sprintf("ACK covering the skipped packet number %d (skipped numbers so far %v) accepted (code %d)", old, r.skipped, ret))
 			}
-			if recent < 0 && old < 0 && pv {
+			if recent < 0 && old < 0 && below < 0 && pv {
 				r.monfail("sentph/ack-valid-rejected", fmt.Sprintf("ACK with largest %d <= largest sent %d covering no skipped number was rejected (code %d)", largest, largestSentBefore, ret))
 			}
 		}
@@ -674,8 +699,9 @@ func (g *sphGen) history(nops int) {
 	}
 }
 
-// sphWitness replays the Coq witness of C06_ack_any_skipped_refuted on the real handler:
-// five PTO expiries skip five application-data packet numbers, only the last four are remembered.
+// sphWitness replays the former refutation witness (now the regression Example C06_ack_old_skipped_rejected)
+// on the real handler: five PTO expiries skip five application-data packet numbers while packet 0 is still
+// tracked; the ACK {6,1} must be a PROTOCOL_VIOLATION.
 func sphWitness(w *bufio.Writer) {
 	r := newSphRun(w, false, true, 0, 0, 0)
 	t := int64(1_000_000_000)
@@ -717,13 +743,87 @@ func sphMigrateObservation(w *bufio.Writer) {
 	fmt.Fprintf(w, "SAMPLE\tobservation: 3 path probes outstanding at MigratedPath, %d still tracked afterwards\n", left)
 }
 
+// sphExhaustive (thorough tier): every history of exactly `depth` ops over a 9-symbol alphabet in ONE packet number
+// space (Initial) using at most 4 packet numbers: send ack-eliciting, send non-ack-eliciting, ACK {i} for i in 0..3,
+// ACK [0..largest sent], loss-detection timeout (at the alarm if it lies ahead), QueueProbePacket. All prefixes are
+// covered because monitors and observables are evaluated after every op. Monitors run on every history; a CASE is
+// emitted for every history when emitEvery == 1, else for every emitEvery-th.
+func sphExhaustive(w *bufio.Writer, client bool, depth, emitEvery int) (histories, emitted int) {
+	const nsym = 9
+	seq := make([]int, depth)
+	var idx int
+	var rec func(pos, sends int)
+	runOne := func() {
+		r := newSphRun(w, client, true, 0, 0, 0)
+		now := int64(1_000_000_000)
+		largest := int64(-1)
+		id := int64(0)
+		for _, sym := range seq {
+			now += 30_000_000
+			switch {
+			case sym == 0:
+				pn := r.exec(&sphOp{kind: "send", l: lvInitial, now: now, la: -1, fs: []int64{id}, size: 1200})
+				id++
+				largest = pn
+			case sym == 1:
+				pn := r.exec(&sphOp{kind: "send", l: lvInitial, now: now, la: 0, size: 45})
+				largest = pn
+			case sym >= 2 && sym <= 5:
+				pn := int64(sym - 2)
+				r.exec(&sphOp{kind: "ack", l: lvInitial, now: now, delay: 0, ranges: [][2]int64{{pn, pn}}})
+			case sym == 6:
+				r.exec(&sphOp{kind: "ack", l: lvInitial, now: now, delay: 0, ranges: [][2]int64{{0, max(largest, 0)}}})
+			case sym == 7:
+				if a := r.v.AlarmTime(); a > now {
+					now = a
+				}
+				r.exec(&sphOp{kind: "timeout", now: now})
+			default:
+				r.exec(&sphOp{kind: "queueprobe", l: lvInitial})
+			}
+		}
+		histories++
+		if idx%emitEvery == 0 {
+			fmt.Fprintf(w, "CASE 1 %s\n", r.caseTerm())
+			emitted++
+		}
+		idx++
+	}
+	rec = func(pos, sends int) {
+		if pos == depth {
+			runOne()
+			return
+		}
+		for sym := 0; sym < nsym; sym++ {
+			if sym <= 1 && sends == 4 {
+				continue
+			}
+			seq[pos] = sym
+			ns := sends
+			if sym <= 1 {
+				ns++
+			}
+			rec(pos+1, ns)
+		}
+	}
+	rec(0, 0)
+	return
+}
+
 func runSentPH(w *bufio.Writer, seed uint64, n int, _ []string) {
 	root := u.NewRng(seed)
 	sphWitness(w)
 	sphMigrateObservation(w)
 	dist := map[string]int{}
-	thorough := os.Getenv("VERIF_TIER") == "thorough"
-	_ = thorough
+	if os.Getenv("VERIF_TIER") == "thorough" {
+		// exhaustive small universe: all 4-op histories through the model (both perspectives), all 6-op histories
+		// through the monitors with a sample through the model
+		for _, client := range []bool{false, true} {
+			h4, e4 := sphExhaustive(w, client, 4, 1)
+			h6, e6 := sphExhaustive(w, client, 6, 97)
+			fmt.Fprintf(w, "DIST\texhaustive-4op-histories\t%d\nDIST\texhaustive-4op-cases\t%d\nDIST\texhaustive-6op-histories\t%d\nDIST\texhaustive-6op-cases\t%d\n", h4, e4, h6, e6)
+		}
+	}
 	for c := 0; c < n; c++ {
 		r := root.Fork()
 		client := r.Bool()
@@ -746,6 +846,7 @@ func runSentPH(w *bufio.Writer, seed uint64, n int, _ []string) {
 		dist["acks-protocol-violation"] += run.pvErrors
 		dist["timeouts-pto"] += run.timeoutsPTO
 		dist["skipped-numbers"] += len(run.skipped)
+		dist["acks-of-forgotten-skipped-number-below-window"] += run.belowWindow
 		dist["frames"] += len(run.sentIDs)
 		dist["callbacks"] += len(run.cbCount)
 		if client {
